@@ -9,6 +9,7 @@ import (
 	"syscall"
 
 	"verif/engine/dr"
+	kq "verif/gen/kq"
 	"verif/gen/xtab"
 
 	"github.com/fsnotify/fsnotify"
@@ -124,7 +125,7 @@ func checkC15(tier string) *dr.Result {
 			if link != "" {
 				wantName = link
 			}
-			ev := xtab.KqNewEvent("the/target", link, mask)
+			ev := kq.VerifKqNewEvent("the/target", link, mask)
 			c.r.Transitions++
 			if uint32(ev.Op) != want || ev.Name != wantName {
 				c.bad("kqueue-newEvent", fmt.Sprintf("kqueue fflags translation differs from the documented table (e.g. fflags %#x link=%q)", mask, link),
@@ -134,16 +135,16 @@ func checkC15(tier string) *dr.Result {
 	}
 	c.r.States += 2 << len(kbits)
 	c.r.Transitions++
-	if xtab.KqNoteAllEvents != 0x1|0x2|0x8|0x20 {
+	if kq.VerifKqNoteAllEvents != 0x1|0x2|0x8|0x20 {
 		c.bad("kqueue-subscribe", "kqueue subscribes to a different note set than DELETE|WRITE|ATTRIB|RENAME",
-			fmt.Sprintf("noteAllEvents=%#x want %#x", uint32(xtab.KqNoteAllEvents), 0x2b), nil)
+			fmt.Sprintf("noteAllEvents=%#x want %#x", uint32(kq.VerifKqNoteAllEvents), 0x2b), nil)
 	}
 	// every portable op must be producible from the subscribed notes, and every subscribed note must produce one
 	{
 		var producible uint32
 		for _, b := range []uint32{0x1, 0x2, 0x8, 0x20} {
-			if uint32(xtab.KqNoteAllEvents)&b != 0 {
-				producible |= uint32(xtab.KqNewEvent("n", "", b).Op)
+			if uint32(kq.VerifKqNoteAllEvents)&b != 0 {
+				producible |= uint32(kq.VerifKqNewEvent("n", "", b).Op)
 			}
 		}
 		c.r.Transitions += 4
@@ -214,7 +215,7 @@ func checkC15(tier string) *dr.Result {
 		portableOnly := v&(opOpen|opRead|opCloseWrite|opCloseRead) == 0
 		c.r.Transitions += 3
 		c.r.States++
-		if xtab.KqSupports(xtab.Op(v)) != portableOnly {
+		if kq.VerifKqSupports(kq.Op(v)) != portableOnly {
 			c.bad("supports", "kqueue xSupports wrong", fmt.Sprintf("op %#x", v), nil)
 		}
 		if xtab.WinSupports(xtab.Op(v)) != portableOnly {
